@@ -1,2 +1,3 @@
 import BufrProps.C11
 import BufrProps.C10
+import BufrProps.C09
